@@ -24,10 +24,10 @@ sys.path.insert(0, HERE)
 
 from polarlint.model import Repo, AnalysisError  # noqa: E402
 from polarlint.core import Ob, Rule, Result, run_rules, run_mutants, violation_keys, write_evidence, load_known  # noqa: E402
-from polarlint.rules import conformance, libcontract, state, splice, pipeline, validate, flow, bayes, mechanisms  # noqa: E402
+from polarlint.rules import conformance, libcontract, state, splice, pipeline, validate, flow, bayes, mechanisms, formulas  # noqa: E402
 
 R = {}
-for mod in (conformance, libcontract, state, splice, pipeline, validate, flow, bayes, mechanisms):
+for mod in (conformance, libcontract, state, splice, pipeline, validate, flow, bayes, mechanisms, formulas):
     for k, v in mod.RULES.items():
         if k in R:
             raise SystemExit(f"duplicate rule id {k}")
@@ -51,19 +51,19 @@ PROPERTIES = {
         specs=[S("FLAGS"), S("LOSSY"), S("SOLVERFLAG"), S("ACTIONS"),
                # necessary conditions shared with C02 / C03 / C19: the pipeline the closed forms come out of
                S("ORDER"), S("A2"), S("CONSTANTS"), S("REBUILD"), S("MEMO"), S("IFFLAT"), S("MULTIASSIGN"), S("DISTREWRITE"), S("SECTIONTABLES"),
-               S("D1"), S("A1-cond"), S("A4M"), S("FRESHCTX"), S("SOLVERSCOPE"),
+               S("D1"), S("A1-cond"), S("A4M"), S("FRESHCTX"), S("SOLVERSCOPE"), S("LOSTUPDATE"),
                S("SPLICE", r"inputparser/|program/"), S("GRAMMAR"), S("PARSER")],
         clause="(i) exactness-flag plumbing: every approximating call clears, and every combiner forwards, the flag that print_is_exact reports; "
                "(ii) pipeline order: a parsed program reaches the recurrence builders only through normalize_program. "
                "NOT decided: that any closed form equals the expectation (value-level)."),
     "C02": dict(
         specs=[S("ORDER"), S("A2"), S("CONSTANTS"), S("REBUILD"), S("MEMO"), S("SPLICE", r"program/transformer/|program/distribution/"), S("FLAG"),
-               S("IFFLAT"), S("MULTIASSIGN"), S("DISTREWRITE"), S("COND2ARITHM"), S("SECTIONTABLES"), S("MARKLAST")],
+               S("IFFLAT"), S("MULTIASSIGN"), S("DISTREWRITE"), S("COND2ARITHM"), S("SECTIONTABLES"), S("MARKLAST"), S("LOSTUPDATE")],
         clause="typestate of the 10-pass pipeline on all settings paths; write-back of substitutions in all subs implementations; constant folding guarded by a "
                "free-symbol test; section rebuilders keep every assignment; memo invalidation; parenthesised location/scale templates. "
                "NOT decided: semantic equivalence of the if-flattening / alias rewrites."),
     "C03": dict(
-        specs=[S("D1"), S("A1-cond"), S("A4M"), S("FRESHCTX")],
+        specs=[S("D1"), S("A1-cond"), S("A4M"), S("FRESHCTX"), S("INDICATOR")],
         clause="indicator polynomials of And/Or/Not/True/False equal their boolean meaning on all rows; composite conditions recurse into every child; the three "
                "get_moment bodies share the guarded-assignment shape. NOT decided: Atom's Lagrange indicator, power reduction, closure, coefficients."),
     "C05": dict(
@@ -79,7 +79,7 @@ PROPERTIES = {
         specs=[S("GROEBNER"), S("INVINPUTS", r"invariant_ideal"), S("RATLATTICE"), S("KAUERS")],
         clause="both groebner() calls compute elimination ideals (generator prefix == filtered symbols, lex order). NOT decided: completeness of the exponent lattice."),
     "C08": dict(
-        specs=[S("A1-dist"), S("A2", r"program/distribution/"), S("SAMPLERS"), S("ENUM"), S("FLOAT", r"float_to_rational|distribution"), S("CFMGF"), S("DISTREWRITE"), S("SUPPORTKIND")],
+        specs=[S("A1-dist"), S("A2", r"program/distribution/"), S("SAMPLERS"), S("ENUM"), S("FLOAT", r"float_to_rational|distribution"), S("CFMGF"), S("DISTREWRITE"), S("SUPPORTKIND"), S("MOMENTS"), S("MGFDOMAIN"), S("STATE", r"program/distribution|classmutable|modstate"), S("LRU", r"program/distribution")],
         clause="every parameter field is consulted by subs/free symbols/sampler/printer/moment/cf/mgf; scipy sampler arguments denote the moment side's law; discrete "
                "enumerations agree; float parameters become exact rationals; cf(t) == mgf(i t) as rational functions. NOT decided: any moment formula."),
     "C09": dict(
@@ -92,7 +92,7 @@ PROPERTIES = {
                "value enumeration; simulator dispatch / first-match branching / guard stuttering / guarded assignment have the assumed shape. "
                "NOT decided: the distribution of simulated states."),
     "C13": dict(
-        specs=[S("MGF"), S("VOCAB"), S("A1-assign", r"FunctionalAssignment|DistAssignment"), S("TRANSFORMTERM"), S("SECTIONTABLES"), S("FRESHCTX")],
+        specs=[S("MGF"), S("VOCAB"), S("A1-assign", r"FunctionalAssignment|DistAssignment"), S("TRANSFORMTERM"), S("SECTIONTABLES"), S("FRESHCTX"), S("MGFDOMAIN")],
         clause="mgf is used only behind a raising existence test at the order used; function-name literals are in the grammar vocabulary, dispatchers are total, trig/exp "
                "mixing is refused; rounding happens in one funnel. NOT decided: the transform formulas."),
     "C15": dict(
@@ -182,7 +182,8 @@ def main(argv=None):
             if s.include is not None:
                 obs = [o for o in obs if s.include.search(o.key) or s.include.search(o.file)]
                 if not obs:
-                    raise AnalysisError(f"rule {s.rid}: filter {s.include.pattern!r} selects nothing")
+                    obs = [Ob(s.rule.id, f"{s.rid}::scope-empty::{s.include.pattern}", "", 0, "", True,
+                              f"rule {s.rid} found no construct within the scope /{s.include.pattern}/ of this property", trivial=True)]
             res.rule_stats[s.rid]["selected"] = len(obs)
             all_obs += obs
         # de-duplicate (a rule may be listed twice with different filters)
